@@ -76,7 +76,7 @@ TERM_REMAINDER = [
 EMU_UNITS = ["emu_ascii", "emu_atascii", "emu_avatar", "emu_viewdata", "emu_mode7", "emu_ctrla", "emu_pcboard", "emu_renegade", "emu_petscii"]
 PROPS["C01"] = dict(
     buffer_kind="terminal",
-    units=["term_core", "ansi_cmds"] + EMU_UNITS,
+    units=["term_core", "ansi_cmds", "dcs_macro"] + EMU_UNITS,
     kani_quick=["c01_ctrla_table_len", "c01_parse_next_number_nonneg", "std_spec_char_range_contains", "std_spec_i32_saturating_mul"],
     trusted_base=TERM_TRUST, unverified_remainder=TERM_REMAINDER,
     explanation="Every screen operation the emulations are built from (Line, Layer, TerminalState, Buffer geometry, the Caret "
@@ -122,7 +122,7 @@ PROPS["C11"] = dict(
 PROPS["C02"] = dict(
     buffer_kind="picture", also_tags=["C01"],
     units=["sauce", "xbin_load", "fonts", "bin_load", "idf_load", "tnd_load", "tdf_load", "icy_load", "buf_sauce", "palette_load", "buf_new", "sixel_layers",
-           "term_core", "ansi_cmds", "emu_ascii", "emu_atascii", "emu_avatar", "emu_ctrla", "emu_pcboard", "emu_renegade", "emu_petscii"],
+           "term_core", "ansi_cmds", "dcs_macro", "emu_ascii", "emu_atascii", "emu_avatar", "emu_ctrla", "emu_pcboard", "emu_renegade", "emu_petscii"],
     trusted_base=LOADER_TRUST + TERM_TRUST[len(COMMON_TRUST):],
     unverified_remainder=["IcyDraw (unit icy_load): read_utf8_encoded_string and the two layer-chunk blocks of load_buffer (first chunk: title, fixed header, picture or first rows of cells; continuation chunk: further rows / picture bytes) are sliced out of the function and proved total on every payload up to 1 GiB, with the declared layer size capped at 65535 x 65535 before rows are allocated; NOT decided: the chunk dispatch itself (PNG decoder callbacks, zTXt, base64, the regex on the chunk name, `get_mut(layer_num)`, the ICED / PALETTE / SAUCE / FONT arms - FONT calls BitFont::from_bytes, proved in unit fonts), (both further defects a sub-agent saw on the clean tree - Buffer::from_bytes on a path without extension and Palette::load_palette(Ase) = todo!() - are now obligations of units sauce and palette_load and were repaired)", "Palette::load_palette: only the dispatch over the formats is decided (no reachable panic macro, ASE returns an error); the five regex-driven text parsers are opaque arms (rule ARMBODY)",
                           "text formats (ans ice diz pcb avt asc msg an1-an9 seq ata) load through parse_with_parser -> one emulation step per character on a buffer that is NOT a terminal buffer: the state invariant term_inv and every "
